@@ -328,6 +328,7 @@ def extract_fn(relpath, qual, ann):
     apply_fund_sums(ed, src, s0, e0)
     apply_bound_ctor_maps(ed, src, s0, e0)
     apply_int_min(ed, it, src)
+    apply_range_next(ed, it, src)
     apply_destructuring_assign(ed, src, s0, e0)
     apply_format_macros(ed, it, src)
     apply_storage_has(ed, it, src)
@@ -583,15 +584,22 @@ def _range_chain(it, src, end):
     rg = call_ending_at((sk or tk)["recv_end"], "range")
     if rg is None or len(rg["args"]) != 4:
         return None
-    if arg(rg, 2) != "None" or arg(rg, 3) != "Order::Ascending":
-        raise Inconclusive("D22: storage range with an upper bound or descending order is not modelled")
+    desc = arg(rg, 3) == "Order::Descending"
+    if arg(rg, 2) != "None" or arg(rg, 3) not in ("Order::Ascending", "Order::Descending") or (desc and arg(rg, 1) != "None"):
+        raise Inconclusive("D22: storage range with an upper bound, or descending with a lower bound, is not modelled")
     mexpr = src[rg["span"][0]:rg["recv_end"]].decode().strip()
     if not re.match(r"^[A-Z_][A-Z0-9_]*$", mexpr):
         raise Inconclusive(f"D22: range receiver `{mexpr[:30]}` is not a storage map constant")
     skip = arg(sk, 0) if sk is not None else "0"
-    call = f"verif_range_raw_asc(&{mexpr}, {arg(rg, 0)}, {arg(rg, 1)}, {skip}, {arg(tk, 0)})"
-    keys = f"range_keys({arg(rg, 0)}.kv@, {mexpr}.ns as int, {arg(rg, 1)}, ({skip}) as int, ({arg(tk, 0)}) as int)"
-    return {"start": rg["span"][0], "call": call, "keys": keys, "shape": f"{mexpr}.range(.., {arg(rg, 1)}, None, Ascending)" + (f".skip({skip})" if sk is not None else "") + f".take({arg(tk, 0)})"}
+    pre = f"let verif_skip: usize = {skip}; let verif_limit: usize = {arg(tk, 0)}; "
+    if desc:
+        call = f"verif_range_raw_desc(&{mexpr}, {arg(rg, 0)}, verif_skip, verif_limit)"
+        keys = f"range_keys_desc({arg(rg, 0)}.kv@, {mexpr}.ns as int, verif_skip as int, verif_limit as int)"
+        return {"start": rg["span"][0], "call": call, "keys": keys, "pre": pre,
+                "shape": f"{mexpr}.range(.., None, None, Descending)" + (f".skip({skip})" if sk is not None else "") + f".take({arg(tk, 0)})"}
+    call = f"verif_range_raw_asc(&{mexpr}, {arg(rg, 0)}, {arg(rg, 1)}, verif_skip, verif_limit)"
+    keys = f"range_keys({arg(rg, 0)}.kv@, {mexpr}.ns as int, {arg(rg, 1)}, verif_skip as int, verif_limit as int)"
+    return {"start": rg["span"][0], "call": call, "keys": keys, "pre": pre, "shape": f"{mexpr}.range(.., {arg(rg, 1)}, None, Ascending)" + (f".skip({skip})" if sk is not None else "") + f".take({arg(tk, 0)})"}
 
 
 def apply_int_min(ed, it, src, inside=lambda sp: True):
@@ -604,6 +612,23 @@ def apply_int_min(ed, it, src, inside=lambda sp: True):
             continue
         ed.add(m["span"][0], m["span"][0], "verif_ord_min(", "D18", f"`.min({a})` on a primitive integer -> verif_ord_min")
         ed.add(m["recv_end"], m["args"][0][0], ", ", None)
+
+
+def apply_range_next(ed, it, src, inside=lambda sp: True):
+    # D23 (mechanical): `MAP.range(store, None, None, Order::Descending|Ascending).next()` -> verif_range_last / verif_range_first
+    for m in it["mcalls"]:
+        if m["name"] != "next" or m["args"] or not inside(m["span"]):
+            continue
+        rg = [r for r in it["mcalls"] if r["name"] == "range" and r["span"][1] == m["recv_end"] and len(r["args"]) == 4]
+        if len(rg) != 1:
+            continue
+        rg = rg[0]
+        a = [src[x[0]:x[1]].decode().strip() for x in rg["args"]]
+        mexpr = src[rg["span"][0]:rg["recv_end"]].decode().strip()
+        if a[1] != "None" or a[2] != "None" or a[3] not in ("Order::Ascending", "Order::Descending") or not re.match(r"^[A-Z_][A-Z0-9_]*$", mexpr):
+            raise Inconclusive("D23: `.range(..).next()` with bounds is not modelled")
+        fn = "verif_range_last" if a[3] == "Order::Descending" else "verif_range_first"
+        ed.add(m["span"][0], m["span"][1], f"{fn}(&{mexpr}, {a[0]})", "D23", f"`{mexpr}.range(.., None, None, {a[3][7:]}).next()` -> {fn} (prelude/range.rs)")
 
 
 def apply_bound_ctor_maps(ed, src, lo, hi):
@@ -660,7 +685,7 @@ def apply_maploops(ed, it, closures, src, ann, qual, relpath):
         ghost_keys = ""
         if rng is not None:
             ghost_keys = " let ghost verif_keys = " + rng["keys"] + ";"
-        head = ("{ let verif_src = " + xsrc + ";" + ghost_keys + " let mut verif_out" + (f": Vec<{elem_ty}>" if elem_ty else "") + " = Vec::new(); let mut verif_i: usize = 0;\n"
+        head = ("{ " + (rng["pre"] if rng is not None else "") + "let verif_src = " + xsrc + ";" + ghost_keys + " let mut verif_out" + (f": Vec<{elem_ty}>" if elem_ty else "") + " = Vec::new(); let mut verif_i: usize = 0;\n"
                 "while verif_i < verif_src.len()\n" + inv.rstrip() + "\n    decreases verif_src.len() - verif_i\n{ " + bind + "\n")
         ed.add(chain_start, bs0 + 1, head, "D2", f"map/collect chain over `{xsrc.strip()[:40]}` desugared to an index loop (closure body copied by span)")
         tail = c["body_stmts"][-1]
